@@ -637,6 +637,13 @@ func pathsAvoiding(fn *ssa.Function, start ssa.Instruction, stop func(ssa.Instru
 // the head of startBlock (when start is nil and startBlock is not), and
 // instructions satisfying sink are reported like exits (the path ends there).
 func pathsAvoidingTo(fn *ssa.Function, start ssa.Instruction, startBlock *ssa.BasicBlock, stop func(ssa.Instruction) bool, sink func(ssa.Instruction) bool) []exitInfo {
+	return pathsAvoidingEdges(fn, start, startBlock, stop, sink, nil)
+}
+
+// pathsAvoidingEdges additionally refuses to traverse CFG edges for which
+// blockEdge returns true (used to exclude branches taken only under a
+// condition that makes the obligation moot, e.g. "manifest manager is nil").
+func pathsAvoidingEdges(fn *ssa.Function, start ssa.Instruction, startBlock *ssa.BasicBlock, stop func(ssa.Instruction) bool, sink func(ssa.Instruction) bool, blockEdge func(from, to *ssa.BasicBlock) bool) []exitInfo {
 	var exits []exitInfo
 	type edge struct{ from, to *ssa.BasicBlock }
 	visited := map[edge]bool{}
@@ -671,6 +678,9 @@ func pathsAvoidingTo(fn *ssa.Function, start ssa.Instruction, startBlock *ssa.Ba
 				continue
 			}
 			visited[e] = true
+			if blockEdge != nil && blockEdge(b, s) {
+				continue
+			}
 			walk(s, 0, b, trail)
 		}
 	}
